@@ -1,5 +1,6 @@
 #![allow(dead_code)]
 mod c07;
+mod c15;
 mod c20;
 mod enc;
 mod genval;
@@ -23,6 +24,7 @@ fn main() {
     match id {
         "C07" => c07::run(tier, seed, &mut out),
         "C20" => c20::run(tier, seed, &mut out),
+        "C15" => c15::run(tier, seed, &mut out),
         _ => {
             eprintln!("unknown property {}", id);
             std::process::exit(2);
